@@ -68,6 +68,11 @@ def main(argv):
         for sb in (None, '#!/usr/bin/python'):
             dense.append(("s='%s'\nprint(s)\n" % (ch * 60), enc, cookie, False, '\n', sb, None))
     combos += dense
+    # a legacy cookie on bytes that happen to be well-formed UTF-8 (a stale cookie): the declared codec decides what the constants are
+    stale = []
+    for cookie in ('latin-1', 'cp1252', 'iso-8859-15'):
+        for sb in (None, '#!/usr/bin/python'):
+            stale.append((cookie, sb))
     n_cli = 0
     for body, enc, cookie, bom, nl, sb, tag in combos:
         text, raw = build(body, enc, cookie, bom, nl, sb)
@@ -137,6 +142,22 @@ def main(argv):
                     d2 = 'does not parse: %s' % type(e).__name__
                 if d2 and not tag:
                     fails.append(dict(label, failure='the bytes written by the command line tool denote a different program: %s' % d2, preserve_shebang=preserve))
+    for cookie, sb in stale:
+        lines = ([sb] if sb else []) + ['# -*- coding: %s -*-' % cookie, "x='caf\xe9 na\xefve'", "print(x)"]
+        raw = ('\n'.join(lines) + '\n').encode('utf-8')          # UTF-8 bytes under a legacy cookie
+        try:
+            want = ast.parse(raw)
+        except (SyntaxError, ValueError):
+            continue
+        cases += 1
+        label = {'encoding': 'utf-8 bytes', 'cookie': cookie, 'bom': False, 'newline': repr('\n'), 'shebang': sb, 'mechanism': None}
+        try:
+            out_b = python_minifier.minify(raw)
+            d = astlib.strict_equal(want, ast.parse(out_b.encode('utf-8')))
+            if d:
+                fails.append(dict(label, failure='stale cookie: UTF-8 output denotes a different program: %s' % d))
+        except Exception as e:
+            fails.append(dict(label, failure='stale cookie: minify(bytes) raised %s' % type(e).__name__))
     import shutil
     shutil.rmtree(tmp, ignore_errors=True)
     # new (unclassified) failures first, then one representative per known mechanism
